@@ -8,9 +8,9 @@ EXPLANATION = (
     "Taint rule: the names a file patch carries (old_filename()/new_filename(), after -pN stripping) reach base_dir.join(..) sinks that "
     "load, create, write or delete (a bare existence probe is not a use as target) "
     "only through the modified-files map and PatchStatus, and both are populated only by apply_one_file_patch (checked here and in "
-    "C15-R3). Inside that function every use of a name — get_or_load, the PatchStatus record — is "
-    "dominated by the exhaustion edge of a loop that passes BOTH names through a sanitizer and leaves the function with an error "
-    "on the sanitizer's reject edge. A sanitizer is recognised by shape, not by name: it walks Path::components() and maps "
+    "C15-R3). Inside that function every Ok return is "
+    "dominated by the exhaustion edge of a loop that passes BOTH names through a sanitizer, and the sanitizer's reject edge can only "
+    "return Err (which aborts the push before anything is saved, C05/C17). A sanitizer is recognised by shape, not by name: it walks Path::components() and maps "
     "ParentDir, RootDir and Prefix to 'reject'. Not decided: symlinks already present inside the tree (not a property of the names)."
 )
 LEVEL_NOTE = "Undecided: symlinked directories inside the working tree; Windows path prefixes are covered by Component::Prefix."
@@ -154,12 +154,13 @@ def run(ck):
             reject = g["false_edge"] if pol else g["true_edge"]
             accept = g["true_edge"] if pol else g["false_edge"]
             r = cfg.reachable(ao, [reject[1]])
-            sinks = [b2 for b2, t2 in ao.calls() if b2 in r and (callee_of(t2).get("rpath") or "") in (gol.id,)]
+            oks = [b2 for b2 in r for s in ao.blocks[b2]["stmts"]
+                   if s["k"] == "assign" and s["lhs"]["l"] == 0 and "p" not in s["lhs"] and s["rv"]["k"] == "agg" and s["rv"].get("variant") == "Ok"]
             rets_err = any(s["k"] == "assign" and s["lhs"]["l"] == 0 and s["rv"]["k"] == "agg" and s["rv"].get("variant") == "Err"
                            for b2 in r for s in ao.blocks[b2]["stmts"])
-            ck.require(not sinks and rets_err, rule, "an unsafe name makes apply_one_file_patch fail before any use",
-                       "from the reject edge of the sanitizer %s" % ("a sink is still reachable" if sinks else "no Err is returned"), ao.where(t),
-                       ok_detail="reject edge returns Err, no load/choose reachable")
+            ck.require(not oks and rets_err, rule, "an unsafe name makes apply_one_file_patch fail",
+                       "from the reject edge of the sanitizer %s" % ("an Ok return is still reachable" if oks else "no Err is returned"), ao.where(t),
+                       ok_detail="reject edge returns Err, no Ok return reachable")
             accept_edges.append((g, accept))
     ck.require(covered == {"old_filename", "new_filename"}, rule, "both names of the file patch are sanitised",
                "only %s pass(es) through the sanitizer: the other name can still point outside the tree" % sorted(covered), ao.where(),
@@ -175,20 +176,18 @@ def run(ck):
         need_all = True
     else:
         need_all = False
-    # choose_filename_to_patch only stats a path (Path::exists); loading / recording a name is what makes it a target
-    uses = [(b2, t2) for b2, t2 in ao.calls() if (callee_of(t2).get("rpath") or "") in (gol.id,)]
-    aggs = [(b2, s) for b2, i2, s in ao.stmts() if s["k"] == "assign" and s["rv"]["k"] == "agg" and (s["rv"].get("adt") or "").endswith("common::PatchStatus")]
-    ck.floor(rule, "uses of patch names in apply_one_file_patch", len(uses), 3)
-    for b2, t2 in uses:
+    # apply_one_file_patch can only succeed (Ok) after every name passed: an Err aborts the push before anything is saved (C05/C17),
+    # so a name that was loaded or probed before the verdict never becomes a target
+    uses = [(b2, s) for b2, i2, s in ao.stmts() if s["k"] == "assign" and s["lhs"]["l"] == 0 and "p" not in s["lhs"]
+            and s["rv"]["k"] == "agg" and s["rv"].get("variant") == "Ok"]
+    ck.floor(rule, "Ok returns of apply_one_file_patch", len(uses), 2)
+    for b2, s in uses:
         if need_all:
             ok = all(b2 in cfg.dominated_by_edge(ao, e) for e in done_edges) and len(done_edges) >= 2
         else:
             ok = any(b2 in cfg.dominated_by_edge(ao, e) for e in done_edges)
-        ck.require(ok, rule, "%s only after both names passed the sanitizer" % (callee_of(t2)["rpath"].split("::")[-1]),
-                   "%s is reachable before the names were checked" % callee_of(t2)["rpath"], ao.where(t2))
-    for b2, s in aggs:
-        ok = any(b2 in cfg.dominated_by_edge(ao, e) for e in done_edges) if not need_all else all(b2 in cfg.dominated_by_edge(ao, e) for e in done_edges)
-        ck.require(ok, rule, "PatchStatus recorded only for sanitised names", "a PatchStatus is recorded before the names were checked", ao.where(s))
+        ck.require(ok, rule, "apply_one_file_patch returns Ok only after both names passed the sanitizer",
+                   "an Ok return is reachable before the names were checked", ao.where(s))
     # sinks elsewhere take their names from what apply_one_file_patch recorded
     all_aggs = [(fn, s) for fn in prog.fns.values() for b2, i2, s in fn.stmts()
                 if s["k"] == "assign" and s["rv"]["k"] == "agg" and (s["rv"].get("adt") or "").endswith("common::PatchStatus")]
